@@ -150,6 +150,7 @@ def bitsOfHeader (h : Header) : Nat :=
   let base := if h.truncated then Nat.lor base 512 else base
   let base := if h.authoritative then Nat.lor base 1024 else base
   let base := if h.response then Nat.lor base 32768 else base
+  let base := if h.z then Nat.lor base 64 else base
   let base := if h.ad then Nat.lor base 32 else base
   let base := if h.cd then Nat.lor base 16 else base
   base
